@@ -91,12 +91,13 @@ def run_scenario(sc: dict):
         appfuts = [getattr(w, "_fut_waiter", None) for w in state.get("workers", []) if not w.done()]
         tm = sorted(hname(h) for h in lp.live_timers(name)
                     if not any(a is not None and a in (getattr(h, "_args", None) or ()) for a in appfuts))
-        counts = {"coord": 0, "fetch": 0, "client": 0, "sender": 0, "other": 0}
+        counts = {"coord": 0, "fetch": 0, "client": 0, "sender": 0, "accum": 0, "other": 0}
         for t in tasks:
             c = ("coord" if t.startswith(("GroupCoordinator.", "NoGroupCoordinator.", "BaseCoordinator.")) else
                  "fetch" if t.startswith("Fetcher.") else
                  "client" if t.startswith(("AIOKafkaClient.", "AIOKafkaConnection.")) else
-                 "sender" if t.startswith(("Sender.", "MessageAccumulator.")) else "other")
+                 "sender" if t.startswith("Sender.") else
+                 "accum" if t.startswith("MessageAccumulator.") else "other")
             counts[c] += 1
         return dict(tasks=tasks, counts=counts, timers=len(tm), tnames=tm, conns=len(net.open_transports(name)))
 
@@ -129,6 +130,22 @@ def run_scenario(sc: dict):
             cl.blackhole.update(cl.nodes)
         elif k == "failover":
             gsim.failover(GROUP, c[1], keep_state=bool(c[2]))
+        elif k == "fence":
+            # another instance with the same transactional id takes over: the sender task of the producer under test
+            # dies with ProducerFenced at its next transactional request -- stop() comes afterwards
+            cl.txn.fence("tx")
+        elif k == "groupauth":
+            # the group's ACL is revoked: every group request is answered GROUP_AUTHORIZATION_FAILED from now on; the
+            # error is pushed to the application, which may never poll again before it calls stop()
+            orig = director.plan
+
+            def plan(cluster, ctx):
+                p = orig(cluster, ctx)
+                if ctx.api in ("JoinGroup", "SyncGroup", "Heartbeat", "OffsetCommit", "OffsetFetch") or \
+                        (ctx.api == "FindCoordinator" and getattr(ctx.req, "coordinator_type", 0) == 0):
+                    p.fault, p.code = "error", 30
+                return p
+            director.plan = plan
 
     async def main(loop):
         state["loop"] = loop
